@@ -121,6 +121,7 @@ func (e *Env) buildMemory() {
 // Restart throws away every in-memory component and rebuilds it over the same API and provider
 // state (= controller process restart).
 func (e *Env) Restart() {
+	e.API.ClearCrash()
 	e.buildMemory()
 	for _, f := range e.OnRestart {
 		f()
